@@ -47,10 +47,16 @@ POOL_JSON = (
     + [{"t": "str", "v": s} for s in ("a", "b", "c")]
     + [{"t": "tuple", "v": [1, 2]}, {"t": "tuple", "v": [0]}]
     + [{"t": "evil", "v": 0}, {"t": "evil", "v": 1}]
+    # unusual but legal elements: None, empty things, NaN (one shared object), numbers equal across types, near-twin strings
+    + [{"t": "none", "v": 0}, {"t": "str", "v": ""}, {"t": "tuple", "v": []}, {"t": "nan", "v": 0}, {"t": "int", "v": 0},
+       {"t": "bool", "v": False}, {"t": "float", "v": 0.0}, {"t": "str", "v": "A"}, {"t": "str", "v": "a "},
+       {"t": "bytes", "v": "a"}, {"t": "decimal", "v": 1}, {"t": "fraction", "v": 2}, {"t": "frozenset", "v": [1, 2]},
+       {"t": "str", "v": "x" * 300 + "1"}, {"t": "str", "v": "x" * 300 + "2"}]
     # a long tail of plain ints, used only by "big" runs: sets larger than any small-size fast path
     + [{"t": "int", "v": i} for i in range(6, 150)]
 )
-N_SMALL_POOL = 17
+NAN = float("nan")  # plain sets treat the *same* NaN object as one element (identity is tried before ==)
+N_SMALL_POOL = 17 + 15
 
 
 def dec_elem(j: Dict[str, Any]):
@@ -67,6 +73,22 @@ def dec_elem(j: Dict[str, Any]):
         return tuple(int(x) for x in v)
     if t == "evil":
         return Evil(int(v))
+    if t == "none":
+        return None
+    if t == "nan":
+        return NAN
+    if t == "bytes":
+        return str(v).encode("ascii")
+    if t == "decimal":
+        import decimal
+
+        return decimal.Decimal(int(v))
+    if t == "fraction":
+        import fractions
+
+        return fractions.Fraction(int(v))
+    if t == "frozenset":
+        return frozenset(int(x) for x in v)
     raise ValueError(t)
 
 
@@ -76,7 +98,15 @@ def elem_key(e) -> List[Any]:
         return ["evil", e.k]
     if isinstance(e, tuple):
         return ["tuple", [int(x) for x in e]]
-    return [type(e).__name__, e if not isinstance(e, float) else repr(e)]
+    if e is None:
+        return ["none"]
+    if isinstance(e, frozenset):
+        return ["frozenset", sorted(int(x) for x in e)]
+    if isinstance(e, bytes):
+        return ["bytes", e.decode("ascii")]
+    if isinstance(e, (int, str, bool)):
+        return [type(e).__name__, e]
+    return [type(e).__name__, repr(e)]
 
 
 # ---------------------------------------------------------------- iterables ---------------------------
@@ -141,9 +171,14 @@ def build_iter(j: Dict[str, Any], slots):
 
 
 # ---------------------------------------------------------------- reference model ---------------------
+def _eq(x, y) -> bool:
+    """element identity as Python sets and dicts see it: the same object, or =="""
+    return x is y or x == y
+
+
 def _in(e, lst) -> bool:
     for x in lst:
-        if x == e:
+        if _eq(x, e):
             return True
     return False
 
@@ -161,7 +196,7 @@ def m_add(st, e):
 
 
 def m_discard(st, e):
-    return [x for x in st if not (x == e)]
+    return [x for x in st if not _eq(x, e)]
 
 
 def m_update(st, items):
@@ -187,7 +222,7 @@ def same_seq(a, b) -> bool:
     if len(a) != len(b):
         return False
     for x, y in zip(a, b):
-        if not (x == y):
+        if not _eq(x, y):
             return False
     return True
 
@@ -225,10 +260,10 @@ def _gen_iter(r, pool_idx, allow_fault: bool, kinds=None, allow_slot=True) -> Di
         r.shuffle(idx)
     items = [POOL_JSON[i] for i in idx]
     if kind in ("set", "frozenset"):
-        items = [e for e in items if e["t"] not in ("str",)]
+        items = [e for e in items if e["t"] not in ("str", "bytes", "none", "frozenset", "decimal", "fraction")]
     if kind in ("dict", "dictkeys"):
         # a keys view is a Set: Set-mixin operators may route through plain sets, whose order for str is hash-seed salted
-        items = [e for e in items if e["t"] not in ("evil", "str")]
+        items = [e for e in items if e["t"] not in ("evil", "str", "bytes", "none", "frozenset", "decimal", "fraction")]
     j: Dict[str, Any] = {"kind": kind, "items": items}
     if allow_fault and kind in ("list", "gen"):
         j["fail_after"] = r.randrange(len(items) + 1)
@@ -591,7 +626,16 @@ def _run(scn, log: EventLog, stats: Stats):
                     raise Violation((PROP, name, "result-type"), type(res).__name__, step)
                 di = op["dst"]
                 got = _snapshot(res)
-                if dst_strict:
+                if name in ("deepcopy", "pickle"):
+                    # the copy holds new objects: a NaN in it is another NaN (not identical, not ==); compare with NaN ~ NaN
+                    # and let the model continue with the copy's own objects, as a pickled plain set would
+                    def _eqn(x, y):
+                        return _eq(x, y) or (isinstance(x, float) and isinstance(y, float) and x != x and y != y)
+
+                    if len(got) != len(new_dst) or not all(_eqn(x, y) for x, y in zip(got, new_dst)):
+                        raise Violation((PROP, name, "order"), f"got {got!r} expected {new_dst!r}", step)
+                    new_dst = got
+                elif dst_strict:
                     if not same_members(got, new_dst):
                         raise Violation((PROP, name, "membership"), f"got {got!r} expected {new_dst!r}", step)
                     if not same_seq(got, new_dst):
